@@ -47,10 +47,12 @@ RULE = ("One case = one solve of one LQ problem for one batch element. Problems:
 ASSUME = ["reference roll-out, cost, gradient (torch autograd, float64) and dense optimum (numpy, one step of "
           "iterative refinement) never call the library",
           "the horizon cost uses steps t = 0..T-1 (x_T carries no cost), as LQR documents and computes",
-          "gradient tolerance 2^18 * u * s_t with s_t the costate recursion on absolute values "
-          "(max_i [|Q_t||tau_t| + |p_t|]_u + |B_t|^T Lambda_{t+1}); this is 5.8e-11 * s_t in float64, well inside "
-          "the 1e-8 * scale of the design",
-          "dense comparison |u - u*| <= 1024 u cond(H) |u*| is judged only when 1024 * u * cond(H) < 0.1",
+          "gradient tolerance 2^18 * u * s_t, s_t = D_t + |B_t| sum_{k>t} |Phi(k,t+1)| D_k with D_k = | |Q_k||tau_k| + "
+          "|p_k| | and Phi the true transition products (2-norms; products of |A| overestimate non-normal systems "
+          "by up to 1e7): 5.8e-11 * s_t in float64, well inside the 1e-8 * scale of the design. The gradient through "
+          "the exact open-loop roll-out of u is allowed, in addition, 64 x the library's own per-step roll-out "
+          "round-off u(|A||x|+|B||u|+|c1|) propagated to later states and from there into dJ/du_t",
+          "dense comparison |u - u*| <= 2048 u cond(H) |u*| is judged only when 2048 * u * cond(H) < 0.1",
           "LTV horizon step t uses the matrices of system time t (dt = 1); LQR is documented to solve from "
           "horizon time 0 whatever the object's current system time",
           "MPC on nonlinear systems: only feasibility and cost consistency are demanded (no optimality claim); the "
@@ -60,7 +62,7 @@ ASSUME = ["reference roll-out, cost, gradient (torch autograd, float64) and dens
           "box constraints u_lower/u_upper/du are not exercised (not in the property)", "CPU only"]
 
 DT = {"f64": torch.float64, "f32": torch.float32}
-C_DYN, C_COST, C_GRAD, C_DENSE, C_PERT, C_NLS = 32.0, 256.0, 2.0 ** 18, 1024.0, 64.0, 64.0
+C_DYN, C_COST, C_GRAD, C_FWD, C_DENSE, C_PERT, C_NLS = 64.0, 256.0, 2.0 ** 18, 64.0, 2048.0, 64.0, 64.0
 U64 = float(np.finfo(np.float64).eps)
 
 
@@ -281,12 +283,14 @@ def check_solution(ck, rng, prob, b, x, u, cost, x0, regime, entry, key, pre):
              lambda: dict(base(), recomputed=J))
     # ---- zero gradient w.r.t. every input
     g_ad, J_open = R.grad_autograd(A, Bm, c1, Q, p, x0, u)
-    g_co, s = R.grad_costate(A, Bm, Q, p, x, u)
-    tol_g = C_GRAD * ud * s
+    g_co, _ = R.grad_costate(A, Bm, Q, p, x, u)
+    s, fwd = R.gradient_scales(A, Bm, c1, Q, p, x, u, ud)
+    tol_co = C_GRAD * ud * s                 # stationarity at the returned (x, u)
+    tol_g = tol_co + C_FWD * fwd             # exact open-loop roll-out of u: + propagated round-off of the returned x
     ck.count(pre + "gradient", regime, n=2 * T, key=key)
     ratios(ck, pre + "gradient", regime, np.abs(g_ad).max(-1), tol_g, entry, "gradient_wrt_some_input_not_zero",
-           lambda i: dict(base(), step=int(i), grad=g_ad.tolist(), scale=s.tolist()))
-    ratios(ck, pre + "gradient", regime, np.abs(g_co).max(-1), tol_g, entry, "lagrangian_not_stationary_at_some_input",
+           lambda i: dict(base(), step=int(i), grad=g_ad.tolist(), scale=s.tolist(), forward_term=fwd.tolist()))
+    ratios(ck, pre + "gradient", regime, np.abs(g_co).max(-1), tol_co, entry, "lagrangian_not_stationary_at_some_input",
            lambda i: dict(base(), step=int(i), grad=g_co.tolist(), scale=s.tolist()))
     # ---- no perturbation lowers the cost
     umax = max(np.abs(u).max(), 1e-3)
